@@ -43,7 +43,11 @@ def case_measure_ops(kind, R, D):
             A = rng.standard_normal((2, D)); a_ = rng.standard_normal((R, 2))
             for key, kw in (("x", {}), ("xx'", {}), ("Ax+a", dict(dims=(2,), forms=[(A, a_)])),
                             ("quad_outer", dict(dims=(2, 2), forms=[(A, a_), (np.tile(A[None], (R, 1, 1)), None)])),
-                            ("cubic_inner", dict(dims=(2, 2), forms=[(A, a_), (A, None), (A, a_)]))):
+                            ("cubic_inner", dict(dims=(2, 2), forms=[(A, a_), (A, None), (A, a_)])),
+                            ("quad_inner", dict(dims=(2,), forms=[(np.tile(A[None], (R, 1, 1)), a_), (A, a_)])),
+                            ("cubic_outer", dict(dims=(2, 2), forms=[(A, a_), (A, a_), (np.tile(A[None], (R, 1, 1)), None)])),
+                            ("quartic_inner", dict(dims=(2, 2), forms=[(A, a_), (A, None), (A, a_), (A, a_)])),
+                            ("quartic_outer", dict(dims=(2, 2, 2), forms=[(A, a_), (A, a_), (A, None), (np.tile(A[None], (R, 1, 1)), a_)]))):
                 full = m.integrate(o.reg, key, **kw)
                 kw2 = dict(kw)
                 if "forms" in kw:
@@ -52,6 +56,15 @@ def case_measure_ops(kind, R, D):
                 if m.regs.get(full) is not None and m.regs.get(part) is not None:
                     fail_if(fails, PROPERTY, f"integrate:{key}", "integral of the slice != slice of the integrals",
                             np.asarray(m.regs[part]), np.asarray(m.regs[full])[w], params=params)
+            # the two cubic keys with their own argument conventions, one coefficient set per component
+            bR = rng.standard_normal((R, D)); AR = rng.standard_normal((R, 1, D)); aR = rng.standard_normal((R, 1))
+            for key, kwf, kwp in (("xbxx", dict(b=bR), dict(b=bR[w])), ("xAxx", dict(A=AR, a=aR), dict(A=AR[w], a=aR[w]))):
+                full = m.integrate(o.reg, key, **kwf); part = m.integrate(os_, key, **kwp)
+                if m.regs.get(full) is not None and m.regs.get(part) is not None:
+                    fail_if(fails, PROPERTY, f"integrate:{key}", "integral of the slice != slice of the integrals",
+                            np.asarray(m.regs[part]), np.asarray(m.regs[full])[w], params=params)
+                else:
+                    fails.append(failure(PROPERTY, f"integrate:{key}", "raised", params=params))
             d1 = m.query("get_density", o.reg); d2 = m.query("get_density", os_)
             same_obj(fails, "get_density", m.regs.get(m.slice(d1, idx)), m.regs.get(d2), params)
         # products: result component i*R2+j
